@@ -27,11 +27,28 @@ template <Kind K, class E, size_t SP, class Ctr> void regArr(const std::string& 
     std::string out; bool first = true;
     auto emit = [&](const std::string& s) { if (!first) out += " | "; out += s; first = false; };
     auto idxOf = [&](const std::vector<long long>& v) { std::array<I, R> a{}; for (size_t k = 0; k < R; k++) a[k] = static_cast<I>(v[k]); return a; };
+    Op o2 = o;
+    if (o.kv.count("ext2")) { o2.ext = parseList(o.get("ext2")); o2.str = parseList(o.get("str2")); o2.kv.erase("pv"); if (o.kv.count("pv2")) { o2.kv["pv"] = o.get("pv2"); o2.pv = parseNum(o.get("pv2")); } }
     for (const std::string& cmd : splitStr(o.get("seq"), '/')) {
       auto a = splitStr(cmd, ':'); const std::string& c = a[0];
       auto num_ = [&](size_t k) { return k < a.size() ? parseNum(a[k]) : 0LL; };
       auto lst = [&](size_t k) { return k < a.size() ? parseList(a[k]) : std::vector<long long>(); };
       if (c == "cm") { pool[num_(1)].emplace(makeMap<K, E, SP>(o)); continue; }
+      if (c == "cm2") { pool[num_(1)].emplace(makeMap<K, E, SP>(o2)); continue; }      // the line's second mapping (ext2= / str2= / pv2=)
+      if (c == "ad2" || c == "am2") {
+        auto v = lst(2); Ctr ctr{};
+        if constexpr (isStdArray<Ctr>::value) { for (size_t k = 0; k < ctr.size() && k < v.size(); k++) ctr[k] = static_cast<int>(v[k]); }
+        else { for (auto x : v) ctr.push_back(static_cast<int>(x)); }
+        if (c == "ad2") pool[num_(1)].emplace(makeMap<K, E, SP>(o2), ctr); else pool[num_(1)].emplace(makeMap<K, E, SP>(o2), std::move(ctr));
+        continue;
+      }
+      if (c == "rc") {   // the same element through to_mdspan() and the conversion operator, each on the non-const and on the const array
+        if (!pool[num_(1)]) { emit("none"); continue; } auto ix = idxOf(lst(2)); ARR& x = *pool[num_(1)]; const ARR& cx = x;
+        VIEW tm = x.to_mdspan(); CVIEW tc = cx.to_mdspan(); VIEW om = x; CVIEW oc = cx;
+        bool same = tm.mapping() == x.mapping() && tc.mapping() == x.mapping() && om.mapping() == x.mapping() && oc.mapping() == x.mapping() &&
+                    tm.data_handle() == x.data() && tc.data_handle() == x.data() && om.data_handle() == x.data() && oc.data_handle() == x.data();
+        emit("tm=" + std::to_string(arrAt(tm, ix)) + " tc=" + std::to_string(arrAt(tc, ix)) + " om=" + std::to_string(arrAt(om, ix)) + " oc=" + std::to_string(arrAt(oc, ix)) + " same=" + num(same));
+        continue; }
       if (c == "ce") { if constexpr (std::is_constructible_v<M, const E&>) pool[num_(1)].emplace(makeExt<E>(o.ext)); else emit("no-ctor"); continue; }
       if (c == "ad" || c == "am") {   // adopt a container by const reference / by move
         auto v = lst(2); Ctr ctr{};
@@ -112,8 +129,10 @@ template <Kind K, class E, size_t SP, class Ctr> void regArr(const std::string& 
         bool any = false;
         for (int j = 0; j < 4; j++) if (j != num_(1) && pool[j] && pool[j]->container().size() > 0 && x.container().size() > 0 && pool[j]->container().data() == x.container().data()) { s += std::to_string(j); any = true; }
         if (!any) s += "-";
-        CVIEW cv = x.to_mdspan();
-        s += " dh=" + num(cv.data_handle() == x.data() && x.data() == x.container().data() && cv.mapping() == x.mapping());
+        CVIEW cv = x.to_mdspan(); CVIEW oc = x; ARR& nx = *pool[num_(1)]; VIEW tm = nx.to_mdspan(); VIEW om = nx;
+        s += " dh=" + num(cv.data_handle() == x.data() && x.data() == x.container().data() && cv.mapping() == x.mapping() &&
+                          oc.data_handle() == x.data() && oc.mapping() == x.mapping() && tm.data_handle() == x.data() && tm.mapping() == x.mapping() &&
+                          om.data_handle() == x.data() && om.mapping() == x.mapping());
         s += " fw=" + num(x.is_unique() == x.mapping().is_unique() && x.is_exhaustive() == x.mapping().is_exhaustive() && x.is_strided() == x.mapping().is_strided() &&
                           ARR::is_always_unique() == M::is_always_unique() && ARR::is_always_exhaustive() == M::is_always_exhaustive() && ARR::is_always_strided() == M::is_always_strided());
         emit(s); continue;
